@@ -92,10 +92,17 @@ def run_unit(u, tier):
         open(fpath, 'w').write(focus_text(text, u.table, keep))
         still = None
         NL = ('--smt-option', 'smt.arith.solver=6', '--smt-option', 'smt.arith.nl=true')     # what Verus itself uses for by(nonlinear_arith)
-        for opts in (NL, NL + ('--smt-option', 'smt.random_seed=11', '--rlimit', '60')):
+        RING1 = 'broadcast use {s_mul_comm, s_add_comm};'
+        RING2 = 'broadcast use {s_mul_comm, s_add_comm, s_sub_def, s_neg_neg, s_neg_add, s_mul_neg, s_mul_assoc, s_mul_add};'
+        rungs = [((), RING2), (NL, None)]
+        for opts, ring in rungs:
+            if ring:
+                open(fpath, 'w').write(focus_text(text, u.table, keep).replace(RING1, ring))
             res = driver.run_verus(fpath, 'A', 8, tuple(getattr(u, 'verus_extra', {}).get('A', ())) + opts, timeout=LADDER_TIMEOUT)
             fails2, infra2 = driver.classify(u, res, fpath)
-            if res['json'] is None or res['rc'] == 124 or any('does not compile' in x or 'verus/rustc error' in x for x in infra2):
+            if res['rc'] == 124:
+                continue        # this rung ran out of time: the next one may still decide
+            if res['json'] is None or any('does not compile' in x or 'verus/rustc error' in x for x in infra2):
                 break
             bad = set(f['obligation'] for f in fails2 if not f.get('canary'))
             # an obligation the focused run could not decide (resource limit) stays failed
@@ -104,7 +111,7 @@ def run_unit(u, tier):
                 undecided |= set(k for k in keep if k in x)
             now_ok = keep - bad - undecided if not [x for x in infra2 if 'resource limit' in x or 'unclassified' in x] else set()
             for k in sorted(now_ok):
-                out['escalated'].append({'obligation': k, 'options': ' '.join(opts), 'wall_s': res['wall_s']})
+                out['escalated'].append({'obligation': k, 'options': (' '.join(opts) + (' + ' + ring if ring else '')).strip(), 'wall_s': res['wall_s']})
             keep -= now_ok
             out['passes']['A']['cmd'] += ' ; ' + res['cmd']
             if not keep:
@@ -265,7 +272,9 @@ def finish(prop, tier, seed, result, evid_path):
             except Exception as e:      # the search is best-effort; the violation is reported regardless
                 found = {'input': None, 'error': 'replay search failed: %r' % (e,)}
             tags = set((found or {}).get('tags', []))
-            if found and found.get('input') is None and found.get('agree_points') and (tags & {'identity', 'reference-formula'}):
+            full = found and not found.get('clauses_skipped') and found.get('agree_points', 0) >= 100
+            poly = full and found.get('branch_free') and found.get('unguarded')
+            if found and found.get('input') is None and found.get('agree_points') and ((tags & {'identity', 'reference-formula'}) or poly):
                 # Schwartz-Zippel style triage (DESIGN 2.5): the real function still equals the spec function on every sampled
                 # point, so the failed proof of this hinted / reference-formula obligation is brittleness, not a violation
                 result['infra'].append('proof of %s failed but the real code agrees with its spec function on %d random points: undecided (proof brittleness), not a violation' % (
